@@ -149,6 +149,27 @@ fn curves(rng: &mut Rng) {
             let moved_closest = t * c.at_closest_to_point(&q).point();
             v.require(((moved_closest - t * q).norm() - d1).abs() <= tl, "curve2.closest_point_commutes", || "".into());
         }
+        // the stations AT the vertices (iteration, exact vertex lengths, front / back): their directions,
+        // normals and surface points are built from the two adjacent edges and must move with the curve whichever
+        // way it turns there (clockwise or not) and wherever its headings point in the current frame
+        if ct.count() == c.count() {
+            for (k, (a, b)) in c.iter().zip(ct.iter()).enumerate() {
+                let (e0, e1) = (if k > 0 { Some(c.vtx(k) - c.vtx(k - 1)) } else { None }, if k + 1 < c.count() { Some(c.vtx(k + 1) - c.vtx(k)) } else { None });
+                // a vertex where the curve doubles back exactly has no blended direction (DESIGN 8.6)
+                let doubling_back = matches!((e0, e1), (Some(u), Some(w)) if (u.normalize() + w.normalize()).norm() < 1e-6);
+                if doubling_back || (c.is_closed() && (k == 0 || k + 1 == c.count())) && {
+                    let (u, w) = (c.vtx(1) - c.vtx(0), c.vtx(c.count() - 1) - c.vtx(c.count() - 2));
+                    (u.normalize() + w.normalize()).norm() < 1e-6
+                } {
+                    continue;
+                }
+                v.require((t * a.point() - b.point()).norm() <= tl, "curve2.vertex_stations_commute", || format!("vertex {k}"));
+                v.require((t * a.direction().into_inner() - b.direction().into_inner()).norm() <= 1e-6, "curve2.vertex_directions_rotate", || format!("vertex {k}: {:?} moved is {:?}, the moved curve has {:?}", a.direction(), t * a.direction().into_inner(), b.direction()));
+                v.require((t * a.normal().into_inner() - b.normal().into_inner()).norm() <= 1e-6, "curve2.vertex_normals_rotate", || format!("vertex {k}"));
+                let (sa, sb) = (a.surface_point(), b.surface_point());
+                v.require((t * sa.point - sb.point).norm() <= tl && (t * sa.normal.into_inner() - sb.normal.into_inner()).norm() <= 1e-6, "curve2.vertex_surface_points_commute", || format!("vertex {k}"));
+            }
+        }
         let back = ct.transformed_by(&t.inverse());
         let err = back.points().iter().zip(c.points()).map(|(a, b)| (a - b).norm()).fold(0.0, f64::max);
         v.require(back.count() == c.count() && err <= tl, "curve2.inverse_restores", || format!("{err:e}"));
